@@ -542,7 +542,9 @@ def assemble(unit_path, repo=REPO):
                 rw.note('program-slice-append-only', 1)
             for old, new in contract['bodyrep']:
                 if old not in body:
-                    raise ExtractError('%s: body replace anchor lost: %r' % (fnrec.name, old))
+                    # the construct this rewrite was written for is gone: nothing to rewrite; the verifier decides on what is there
+                    asm.manual.append('%s: rewrite %r not applicable (text absent)' % (fnrec.key, old))
+                    continue
                 body = body.replace(old, new)
                 asm.manual.append('%s: %r => %r' % (fnrec.key, old, new))
             contract['bodyrep'] = []
